@@ -90,6 +90,8 @@ val existsb : ('a1 -> bool) -> 'a1 list -> bool
 
 val forallb : ('a1 -> bool) -> 'a1 list -> bool
 
+val filter : ('a1 -> bool) -> 'a1 list -> 'a1 list
+
 val find : ('a1 -> bool) -> 'a1 list -> 'a1 option
 
 val firstn : nat -> 'a1 list -> 'a1 list
@@ -755,3 +757,42 @@ val lower : bool -> node -> node
 val erase_ok : char list -> node list -> bool -> bool -> node -> node -> bool
 
 val first_diff_nospan : node -> node -> nat list option
+
+type site_cfg = { sc_plus : bool; sc_tpl : bool; sc_methods : char list list;
+                  sc_lit_callers : char list list }
+
+type site = { s_key : sp; s_what : char list; s_class : char list }
+
+type wctx = { in_block : bool; excluded : bool; cls : char list }
+
+val mem_str : char list -> char list list -> bool
+
+val lit_sum : node -> bool
+
+val tpl_all_nonlit : node list -> bool
+
+val tpl_has_lit : node list -> bool
+
+val undefined_or_null : node -> bool
+
+val arg_lit_like : node -> bool
+
+val site_here : site_cfg -> node -> ((sp * char list) * char list) list
+
+val with_block : wctx -> wctx
+
+val with_excluded : wctx -> wctx
+
+val sites_walk : site_cfg -> wctx -> node -> site list
+
+val required_sites : site_cfg -> node -> site list
+
+val key_of_operation : node -> node list -> sp option
+
+val hook_keys_aux : node list -> node -> sp list
+
+val hook_keys : node -> sp list
+
+val sp_eqb : sp -> sp -> bool
+
+val missing_sites : site_cfg -> node -> node -> site list
